@@ -13,7 +13,7 @@ All theorems are about the model Ymq/Model/Gf2Small.lean (tied to the code by th
 -/
 import Ymq.Lemmas.Gf2SmallCallsite
 import Ymq.Lemmas.Gf2SmallInverse
-import Ymq.Lemmas.Gf2SmallAab
+import Ymq.Lemmas.Gf2SmallLoop
 import Ymq.Model.Gf2Genblock
 
 namespace Ymq.C14Small
@@ -348,6 +348,44 @@ theorem genblock_never_ends_witness (dbg : Bool) (ys : List (List Nat))
   have := Matrix.rank_le_width (sparseMat 64 [[0], [0]])
   simp only [List.length_cons, List.length_nil] at this
   omega
+
+/-! ### one iteration of the main loop of `kernel_lanczos` -/
+
+open Ymq.Gf2Lanczos Ymq.Gf2 in
+/-- One iteration of the main loop of `kernel_lanczos` (`lanczosStep`: `next = A·W_last ^ V_last`, the
+projections on the earlier blocks and their purge, the Gram matrix, `rank`/`rank_reverse`, the exit on
+`rk == 0`, mask, pseudo-inverse, update of `Y`) reaches NO panic site of the release profile on a
+well-formed state, and the state it leaves is well formed again (so this holds for every iteration of a
+run). Well formed (`WFL`): the four vectors `vs, ws, invgs, masks` have the same length, every block of
+`ws` is purged or has one 64-bit word per column, the last blocks of `vs`, `ws` and `Y`, `A·Y₀` have one
+64-bit word per column; the matrix has row indices `< k`, `64 ≤ k ≤ 2^32` rows, at most `2^32` columns.
+The proof uses `pipeline`'s ingredients: the Gram matrix `(B·next)·(B·next)` is symmetric
+(`symmetric_blockDot_self`), so Montgomery's lemma puts its masked form into the domain of `pseudoinverse`.
+In the CHECKED profile the additional `debug_assert!`s of the loop are Montgomery's A-orthogonality
+invariants themselves (`lanczos_step_checked_orthogonal`); that they never fail is not proved: it is
+sampled by the K stream (checked model = checked build on every recorded iteration of real runs) and
+checked by the oracle (pairwise `W_iᵗ A W_j = 0` on the recorded blocks). -/
+theorem lanczos_step_no_panic_release (k : Nat) (cols : List (List Nat)) (ay : List Nat) (st : LState)
+    (hM : MatOK k cols) (hay : BlockOK cols.length ay) (h : WFL cols.length st) :
+    (∃ st', lanczosStep false (qsOptimize k cols) ay st = .finished st') ∨
+    (∃ st' mk, lanczosStep false (qsOptimize k cols) ay st = .continue st' mk ∧ WFL cols.length st') :=
+  lanczosStep_release_ok hM hay h
+
+open Ymq.Gf2Lanczos Ymq.Gf2 in
+/-- Montgomery's invariant as the code tests it, `AOrth b w x`: `&w * &mul_aab(b, &x) == SmallMat::default()`,
+i.e. `wᵗ·A·x = 0` with `A = BᵗB`. When an iteration of the CHECKED profile returns (`.continue`), the new
+block `W` (last of `ws`: the direction masked by the selection) is A-orthogonal to the updated `Y`, the
+new pseudo-inverse (last of `invgs`) has the rank selection `(rk, mask)` of the Gram matrix with `rk ≠ 0`,
+and the pushed mask is `!mask`. (Extraction of the modelled `debug_assert!`s; the projections' assertions
+`(A·W_j)ᵗ·next = 0` are modelled in `projStep` likewise. That they hold on every reachable state — the
+classical induction of block Lanczos — is not proved; the oracle checks `W_iᵗ A W_j = 0` pairwise on the
+blocks recorded from real runs.) -/
+theorem lanczos_step_checked_orthogonal (b : SparseOpt) (ay : List Nat) (st st' : LState) (mk : Nat)
+    (h : lanczosStep true b ay st = .continue st' mk) :
+    AOrth b (st'.ws.getLast?.getD []) st'.y ∧
+    (∃ rk, rk ≠ 0 ∧ rank 64 true (st'.invgs.getLast?.getD []) = some (rk, mk)) ∧
+    st'.masks.getLast? = some (M64 ^^^ mk) :=
+  lanczosStep_checked h
 
 /-! ### non-vacuity and counter-witnesses (small sizes: the theorems hold for every `n`; the same
 matrices padded with null rows to 64x64 are corpus requests of the K/O streams) -/
